@@ -3,6 +3,7 @@ rank facts, frame.  solvers/sle.py is interpreted from its source over the Layer
 import itertools
 import math
 
+from . import arr as ARR
 from . import l2, l2rules, own, p_c06
 from .arr import Arr
 from .core import AnalysisError, Finding, Run, norm_text
@@ -75,8 +76,31 @@ def check(repo, tier):
         for e_ in sc_.events('solve-structure'):
             if l2rules.in_modules(e_, mods):
                 where, cons, f_, ln = l2rules.ev_where(repo, e_, mods)
+                # what the code looked at before it chose the hint: a comparison of the micro matrix with its (conjugate) transpose
+                mroot = ARR._view_root(e_['matrix'])[0]
+                guard = None
+                for t_ in sc_.events('tolerance-test'):
+                    for x_, y_ in ((t_['a'], t_['b']), (t_['b'], t_['a'])):
+                        # y is x transposed (an odd number of 2-D transpositions more), with or without a conjugation
+                        def chain_(v_):
+                            par, tr, n_ = 0, 0, 0
+                            while isinstance(v_, Arr) and v_.parents and n_ < 12 and v_ is not x_ and v_.origin in ('conj', 'transpose', 'copy'):
+                                par ^= (v_.origin == 'conj')
+                                tr ^= (v_.origin == 'transpose' and v_.ndim == 2)
+                                v_, n_ = v_.parents[0], n_ + 1
+                            return v_, par, tr
+                        ry, py, ty = chain_(y_)
+                        if ry is x_ and ty == 1 and (x_ is e_['matrix'] or ARR._view_root(x_)[0] is mroot):
+                            guard = ('hermitian' if py else 'symmetric', t_)
+                if guard is None:
+                    raise AnalysisError(f'{where}: a complex micro matrix is handed to the symmetric solver; the test that guards the hint is not one the analysis recognises')
                 run.oblige('D4', (where, cons, 'structure hint'), False)
-                run.add(Finding('C07', 'D4', where, cons, f'{e_["detail"]}: for a complex Hermitian operator the micro systems are solved as if they were complex symmetric (O(1) residual, no warning)', f_, ln))
+                if guard[0] == 'hermitian':
+                    why = 'the hint is chosen after comparing the matrix with its CONJUGATE transpose: a complex Hermitian micro matrix is then solved as if it were complex symmetric (O(1) residual, no warning)'
+                else:
+                    why = ('the hint is chosen after a tolerance comparison with the transpose (np.allclose with its absolute atol): a complex Hermitian micro matrix whose entries are below the '
+                           'tolerance passes it and is then solved as if it were complex symmetric -- a tolerance test does not make a matrix symmetric')
+                run.add(Finding('C07', 'D4', where, cons, f'{e_["detail"]}: {why}', f_, ln))
     STRUCTURE_RULE[0] = structure_rule
     for which in ('als', 'mals'):
         seqs = {}
